@@ -77,7 +77,7 @@ class C20(EngineACheck):
             # call node
             from checks.c06 import gen_twin_program
 
-            prog = gen_twin_program(ch, p_raise=0.6)
+            prog = gen_twin_program(ch, p_raise=0.6 if ch.coin(0.5, "failing-twins") else 0.1, groups=True)
             out.probe("twin_family_programs")
         else:
             prog = Gen(ch, cfg).generate()
